@@ -443,3 +443,22 @@ M('c02-rebuild-drops-sinks-when-static-first', 'C02', 'R3', APP,
 """, """        else:
             self._sink_and_static_routes = tuple(self._static_routes + self._sinks[1:])  # type: ignore[operator]
 """)
+
+# ---- wave 8
+# R5: a sink's kwargs are exactly <match>.groupdict() (evaluated on sample groupdict() results)
+M('c02-sink-kwargs-drop-unmatched-groups', 'C02', 'R5', APP,
+  "                        params = m.groupdict()  # type: ignore[union-attr]\n",
+  """                        params = {
+                            name: value
+                            for name, value in m.groupdict().items()  # type: ignore[union-attr]
+                            if value is not None
+                        }
+""")
+M('c02-sink-kwargs-drop-falsy-groups-afterwards', 'C02', 'R5', APP,
+  "                        params = m.groupdict()  # type: ignore[union-attr]\n",
+  """                        params = m.groupdict()  # type: ignore[union-attr]
+                        params = {k: v for k, v in params.items() if v}
+""")
+M('c02-sink-kwargs-default-empty-string', 'C02', 'R5', APP,
+  "                        params = m.groupdict()  # type: ignore[union-attr]\n",
+  "                        params = m.groupdict('')  # type: ignore[union-attr]\n")
